@@ -1065,7 +1065,21 @@ func (fv *FuncVerifier) evalComposite(e *ast.CompositeLit, t types.Type, st *Sta
 				}
 				if srt.field(name) == nil {
 					if !fv.isPureExpr(kv.Value) {
-						reject("unmodelled field %s initialised with effectful expression", name)
+						// evaluate for its effects (an ignored call has none on modelled state);
+						// the value itself is not modelled
+						if _, isLit := ast.Unparen(kv.Value).(*ast.FuncLit); !isLit {
+							func() {
+								defer func() {
+									if r := recover(); r != nil {
+										if _, ok := r.(unsupported); ok {
+											reject("unmodelled field %s initialised with effectful expression", name)
+										}
+										panic(r)
+									}
+								}()
+								fv.eval(kv.Value, st)
+							}()
+						}
 					}
 					continue
 				}
